@@ -507,6 +507,9 @@ func examplesByKindCases() []reqCase {
 		{"padded-and-signed-numbers", []string{" 12 ", "+5", "-0", "007", "1e2", "1.50"}},
 		{"out-of-range-numbers", []string{"1e400", "-1e400", "99999999999999999999", "-99999999999999999999", "4294967296", "1e-400"}},
 		{"boolean-words", []string{"TRUE", "t", "F", "1", "0", "True"}},
+		// whole numbers between 2^63 and 2^64 that no double represents exactly (hashes, trace ids, the uint64 maximum)
+		{"above-int64-integers", []string{"18446744073709551615", "9223372036854775808", "14695981039346656037", "17293822569102704643"}},
+		{"int64-edges", []string{"9223372036854775807", "-9223372036854775808", "9007199254740993", "-9007199254740993"}},
 		{"ordinary", []string{"1", "2.5", "true", "abc"}},
 	}
 	var out []reqCase
